@@ -34,6 +34,29 @@
 #include "include/error.h"
 #include "include/mb_mgr_job_check.h" /* is_job_invalid() */
 
+/*
+ * The synchronous burst functions run their jobs through the same out-of-order
+ * managers as the asynchronous (job and burst) API. Jobs of the asynchronous API
+ * that are still in flight are completed first, so that a manager never hands
+ * one of them back to a synchronous burst.
+ */
+__forceinline void
+complete_async_jobs(IMB_MGR *state)
+{
+        int idx = state->earliest_job;
+
+        if (idx < 0)
+                return; /* queue empty */
+
+        do {
+                IMB_JOB *job = JOBS(state, idx);
+
+                if (job->status < IMB_STATUS_COMPLETED)
+                        (void) complete_job(state, job);
+                ADV_JOBS(&idx);
+        } while (idx != state->next_job);
+}
+
 __forceinline uint32_t
 submit_aes_ccm_burst(IMB_MGR *state, IMB_JOB *jobs, const uint32_t n_jobs,
                      const IMB_KEY_SIZE_BYTES key_size, const int run_check,
@@ -624,6 +647,8 @@ submit_cipher_burst_and_check(IMB_MGR *state, IMB_JOB *jobs, const uint32_t n_jo
                         return 0;
                 }
 
+        complete_async_jobs(state);
+
         switch (cipher) {
         case IMB_CIPHER_CBC:
                 if (dir == IMB_DIR_ENCRYPT)
@@ -681,6 +706,8 @@ submit_aead_burst_and_check(IMB_MGR *state, IMB_JOB *jobs, const uint32_t n_jobs
                         imb_set_errno(state, IMB_ERR_NULL_BURST);
                         return 0;
                 }
+
+        complete_async_jobs(state);
 
         if (cipher == IMB_CIPHER_CCM)
                 return submit_aes_ccm_burst(state, jobs, n_jobs, key_size, run_check, dir);
@@ -1053,6 +1080,8 @@ submit_hash_burst_and_check(IMB_MGR *state, IMB_JOB *jobs, const uint32_t n_jobs
                         return 0;
                 }
         }
+
+        complete_async_jobs(state);
 
         switch (hash) {
         case IMB_AUTH_HMAC_SHA_1:
